@@ -791,6 +791,15 @@ class Partition:
         return xr.merge([dspart, part_ids])
 
 
+def watershed(spectrum, ihmax):
+    """Watershed partition map of a 2D spectrum from the specpart C extension.
+
+    The extension reads the array buffer as C-ordered float32 with shape (nf, nd).
+
+    """
+    return specpart.partition(np.ascontiguousarray(spectrum, dtype=np.float32), ihmax)
+
+
 def np_ptm1(
     spectrum,
     spectrum_smooth,
@@ -829,7 +838,7 @@ def np_ptm1(
 
     """
     # Use smooth spectrum to define morphological boundaries
-    watershed_map = specpart.partition(spectrum_smooth.astype(np.float32), ihmax)
+    watershed_map = watershed(spectrum_smooth, ihmax)
     nparts = watershed_map.max()
 
     # Wind sea mask
@@ -909,7 +918,7 @@ def np_ptm2(
 
     """
     # Use smooth spectrum to define morphological boundaries
-    watershed_map = specpart.partition(spectrum_smooth.astype(np.float32), ihmax)
+    watershed_map = watershed(spectrum_smooth, ihmax)
     nparts = watershed_map.max()
 
     # Wind sea mask
@@ -979,7 +988,7 @@ def np_ptm3(
 
     """
     # Use smooth spectrum to define morphological boundaries
-    watershed_map = specpart.partition(spectrum_smooth.astype(np.float32), ihmax)
+    watershed_map = watershed(spectrum_smooth, ihmax)
     nparts = watershed_map.max()
 
     # Assign partitioned arrays from raw spectrum and morphological boundaries
@@ -1051,7 +1060,7 @@ def np_hp01(
 
     """
     # Use smooth spectrum to define morphological boundaries
-    watershed_map = specpart.partition(spectrum_smooth.astype(np.float32), ihmax)
+    watershed_map = watershed(spectrum_smooth, ihmax)
     nparts = watershed_map.max()
 
     # Assign partitioned arrays from raw spectrum and morphological boundaries
@@ -1144,7 +1153,7 @@ def np_hp01_wseabins(
 
     """
     # Use smooth spectrum to define morphological boundaries
-    watershed_map = specpart.partition(spectrum_smooth.astype(np.float32), ihmax)
+    watershed_map = watershed(spectrum_smooth, ihmax)
     nparts = watershed_map.max()
 
     # Assign partitioned arrays from raw spectrum and morphological boundaries
@@ -1240,7 +1249,7 @@ def np_hp01_wseafrac_wseabins(
 
     """
     # Use smooth spectrum to define morphological boundaries
-    watershed_map = specpart.partition(spectrum_smooth.astype(np.float32), ihmax)
+    watershed_map = watershed(spectrum_smooth, ihmax)
     nparts = watershed_map.max()
 
     # Assign partitioned arrays from raw spectrum and morphological boundaries
